@@ -260,11 +260,14 @@ void NifFile::SetShapeOrder(const std::vector<std::string>& order) {
 			sortState.rootShapeOrder.push_back(GetBlockID(shape));
 	}
 
+	// Only an order that names every shape exactly once can be applied
+	std::set<uint32_t> uniqueShapes(sortState.rootShapeOrder.begin(), sortState.rootShapeOrder.end());
+	if (uniqueShapes.size() != order.size())
+		return;
+
 	auto root = GetRootNode();
-	if (root) {
-		sortState.newIndex = GetBlockID(root);
-		SetSortIndices(sortState.newIndex, sortState);
-	}
+	if (root)
+		SetSortIndices(GetBlockID(root), sortState);
 
 	for (size_t i = 0; i < sortState.newIndices.size(); i++) {
 		uint32_t index = static_cast<uint32_t>(i);
@@ -525,10 +528,17 @@ void NifFile::SortGraph(NiNode* root, SortState& sortState) {
 			// 2. Shapes
 			// 3. other
 
-			// Add nodes with children
+			// Add nodes with children (empty child entries do not count, they are dropped when saving)
+			auto hasChildren = [](NiNode* n) {
+				for (auto& ref : n->childRefs)
+					if (!ref.IsEmpty())
+						return true;
+				return false;
+			};
+
 			for (auto& index : childIndices) {
 				auto node = hdr.GetBlock<NiNode>(index);
-				if (node && node->childRefs.GetSize() > 0) {
+				if (node && hasChildren(node)) {
 					newChildIndices.push_back(index);
 					newChildRefs.AddBlockRef(index);
 				}
@@ -1453,6 +1463,10 @@ int NifFile::Save(const std::filesystem::path& fileName, const NifSaveOptions& o
 }
 
 int NifFile::Save(std::ostream& file, const NifSaveOptions& options) {
+	// Nothing was loaded or created (e.g. a failed load cleared the model)
+	if (!isValid)
+		return 1;
+
 	if (file) {
 		NiOStream stream(&file, &hdr);
 		FinalizeData();
